@@ -1,0 +1,245 @@
+//go:build verif
+
+package api
+
+import (
+	"bytes"
+	"encoding/json"
+	"io"
+	"net/http"
+	"net/http/httptest"
+	"strconv"
+	"sync"
+	"sync/atomic"
+	"testing"
+	"time"
+
+	"github.com/gotid/god/api/router"
+	"github.com/gotid/god/internal/verifdrv"
+	"github.com/gotid/god/lib/logx"
+)
+
+// End-to-end twin of api/handler's driver: the chain is the one engine.bindRoute builds, the server a
+// real loopback http server, the observation what an http client receives.
+
+type verifC02Action struct {
+	A string `json:"a"` // set | add | del | wh | w | panic
+	K int    `json:"k"`
+	V int    `json:"v"`
+	C int    `json:"c"`
+	B string `json:"b"`
+}
+
+type verifC02Case struct {
+	MaxBytes int64         `json:"maxbytes"`
+	Clen     int64         `json:"clen"` // the request really carries that many body bytes
+	Acts     []verifC02Action `json:"acts"`
+	Fire     struct {
+		Mode string `json:"mode"` // none | cut (the route's own timer fires while the handler is parked in front of action k)
+		K    int    `json:"k"`
+	} `json:"fire"`
+}
+
+type verifC02Hdr struct {
+	K int   `json:"k"`
+	V []int `json:"v"`
+}
+
+const (
+	verifC02Keys        = 4
+	verifC02RealTimeout = 80 // ms
+	verifC02HangLimit   = 5 * time.Second
+)
+
+func verifC02Key(k int) string { return "X-Verif-" + strconv.Itoa(k) }
+
+func verifC02Snap(h http.Header) []verifC02Hdr {
+	out := []verifC02Hdr{}
+	for k := 0; k < verifC02Keys; k++ {
+		vv, ok := h[verifC02Key(k)]
+		if !ok {
+			continue
+		}
+		vals := make([]int, 0, len(vv))
+		for _, s := range vv {
+			n, err := strconv.Atoi(s)
+			if err != nil {
+				n = -1
+			}
+			vals = append(vals, n)
+		}
+		out = append(out, verifC02Hdr{K: k, V: vals})
+	}
+	return out
+}
+
+func verifC02Do(w http.ResponseWriter, a verifC02Action) string {
+	switch a.A {
+	case "set":
+		w.Header().Set(verifC02Key(a.K), strconv.Itoa(a.V))
+		return "ok"
+	case "add":
+		w.Header().Add(verifC02Key(a.K), strconv.Itoa(a.V))
+		return "ok"
+	case "del":
+		w.Header().Del(verifC02Key(a.K))
+		return "ok"
+	case "wh":
+		w.WriteHeader(a.C)
+		return "ok"
+	case "w":
+		n, err := w.Write([]byte(a.B))
+		switch {
+		case err == nil:
+			return "w:" + strconv.Itoa(n)
+		case err == http.ErrHandlerTimeout:
+			return "timeout"
+		default:
+			return "err:" + err.Error()
+		}
+	case "panic":
+		panic("verif: scripted panic")
+	}
+	panic("verif: unknown action " + a.A)
+}
+
+func verifC02Run(c *verifC02Case, k int) (obs map[string]any, ok bool) {
+	var (
+		mu      sync.Mutex
+		trace   []string
+		live    = true
+		entered int32
+		parked  = make(chan struct{}, 1)
+		release = make(chan struct{})
+		hexit   = make(chan struct{})
+	)
+	cut := c.Fire.Mode == "cut"
+	h := func(w http.ResponseWriter, r *http.Request) {
+		atomic.StoreInt32(&entered, 1)
+		defer close(hexit)
+		io.Copy(io.Discard, r.Body)
+		for i, a := range c.Acts {
+			if cut && i == k {
+				mu.Lock()
+				live = r.Context().Err() == nil
+				mu.Unlock()
+				parked <- struct{}{}
+				<-release
+			}
+			mu.Lock()
+			trace = append(trace, "panic")
+			mu.Unlock()
+			out := verifC02Do(w, a)
+			mu.Lock()
+			trace[i] = out
+			mu.Unlock()
+		}
+		if cut && k >= len(c.Acts) {
+			mu.Lock()
+			live = r.Context().Err() == nil
+			mu.Unlock()
+			parked <- struct{}{}
+			<-release
+		}
+	}
+	timeout := int64(60000)
+	if cut {
+		timeout = verifC02RealTimeout
+	}
+	ng := newEngine(Config{Timeout: timeout, MaxBytes: c.MaxBytes})
+	ng.addRoutes(featuredRoutes{routes: []Route{{Method: http.MethodPost, Path: "/verif", Handler: h}}})
+	rt := router.NewRouter()
+	if err := ng.bindRoutes(rt); err != nil {
+		return map[string]any{"error": err.Error()}, true
+	}
+	srv := httptest.NewServer(rt)
+	defer srv.Close()
+
+	type result struct {
+		status int
+		hdr    []verifC02Hdr
+		body   []byte
+		err    error
+	}
+	resc := make(chan result, 1)
+	go func() {
+		resp, err := http.Post(srv.URL+"/verif", "application/octet-stream", bytes.NewReader(make([]byte, c.Clen)))
+		if err != nil {
+			resc <- result{err: err}
+			return
+		}
+		defer resp.Body.Close()
+		b, err := io.ReadAll(resp.Body)
+		resc <- result{status: resp.StatusCode, hdr: verifC02Snap(resp.Header), body: b, err: err}
+	}()
+
+	ok = true
+	var res result
+	gotRes := false
+	if cut {
+		select {
+		case <-parked:
+			mu.Lock()
+			ok = live // false: the route timer fired before the handler reached the cut
+			mu.Unlock()
+			select {
+			case res = <-resc: // the 80 ms timer answers while the handler is parked
+				gotRes = true
+			case <-time.After(verifC02HangLimit):
+				panic("verif: hung: no response although the route timeout has long passed")
+			}
+			close(release)
+		case <-hexit: // the handler ended (panicked) before the cut
+		case <-time.After(verifC02HangLimit):
+			panic("verif: hung: handler neither parked nor finished")
+		}
+	}
+	if !gotRes {
+		select {
+		case res = <-resc:
+		case <-time.After(verifC02HangLimit):
+			panic("verif: hung: no response")
+		}
+	}
+	if atomic.LoadInt32(&entered) == 1 {
+		select {
+		case <-hexit:
+		case <-time.After(verifC02HangLimit):
+			panic("verif: hung: handler did not finish")
+		}
+	}
+	mu.Lock()
+	tr := append([]string{}, trace...)
+	mu.Unlock()
+	if res.err != nil {
+		return map[string]any{"client_error": res.err.Error(), "trace": tr}, ok
+	}
+	body := make([]int, len(res.body))
+	for i, b := range res.body {
+		body[i] = int(b)
+	}
+	return map[string]any{"resp": map[string]any{"status": res.status, "h": res.hdr, "body": body}, "trace": tr}, ok
+}
+
+func TestVerifDriverC02(t *testing.T) {
+	logx.Disable()
+	verifdrv.Run(t, func(raw json.RawMessage) any {
+		var c verifC02Case
+		if err := json.Unmarshal(raw, &c); err != nil {
+			return map[string]any{"error": err.Error()}
+		}
+		for attempt := 0; attempt < 5; attempt++ {
+			obs, ok := verifC02Run(&c, c.Fire.K)
+			if ok {
+				obs["k_used"] = c.Fire.K
+				obs["retries"] = attempt
+				return obs
+			}
+		}
+		// the scheduler would not let the handler reach the cut within the timeout: park it at the start instead
+		obs, _ := verifC02Run(&c, 0)
+		obs["k_used"] = 0
+		obs["retries"] = 5
+		return obs
+	})
+}
